@@ -45,35 +45,35 @@ def rule_a(ctx, R):
     if not zsites:
         return ctx.ob("C16-a", "an Err(ZeroDet) return exists", False, fn, "no-ZeroDet-return",
                       detail="decompose_for_tropical never constructs MatrixError::ZeroDet: a singular factor cannot be reported")
-    # candidate guards: switches on eq/ne(X, zero)
+    # candidate guards: switches on a comparison of X (or |X|) with a constant c such that X == 0 takes the Err(ZeroDet) edge
     guards = []
     for bi, b in enumerate(body.blocks):
         if b["cleanup"] or b["term"]["k"] != "switch":
             continue
         c = v.classify_bool(b["term"]["discr"])
-        if not c or c[0] != "call":
+        cm = common.cmp_of(v, c)
+        if cm is None:
             continue
-        t = c[1]
-        if not callee_is(t, trait="PartialEq", name=("eq", "ne")):
-            continue
-        r0, r1 = v.root(t["args"][0]), v.root(t["args"][1])
-        if is_zero_value(v, r1):
-            x = r0
-        elif is_zero_value(v, r0):
-            x = r1
+        op, la, ra, wh = cm
+        cl, cr = common.const_value_of(v, la), common.const_value_of(v, ra)
+        if cr is not None and cl is None:
+            x, _abs = common.strip_abs(v, v.root(la))
+            at_zero = common.eval_cmp(op, 0.0, cr)
+        elif cl is not None and cr is None:
+            x, _abs = common.strip_abs(v, v.root(ra))
+            at_zero = common.eval_cmp(op, cl, 0.0)
         else:
             continue
         te, fe = bool_edges(body, bi)
-        zero_edge = te if t["callee"]["name"] == "eq" else fe
-        nonzero_edge = fe if t["callee"]["name"] == "eq" else te
-        # does the zero edge lead (only) to Err(ZeroDet)?
+        zero_edge = te if at_zero else fe
+        nonzero_edge = fe if at_zero else te
         reach = body.reachable_from(zero_edge)
         if not any(z in reach for z in zsites):
             continue
-        guards.append({"bb": bi, "x": x, "zero": zero_edge, "nonzero": nonzero_edge, "where": pat.where(t)})
+        guards.append({"bb": bi, "x": x, "zero": zero_edge, "nonzero": nonzero_edge, "where": wh or pat.where(b["term"])})
     if not guards:
-        return ctx.ob("C16-a", "a `X == zero` test guards the Err(ZeroDet) return", False, fn, "no-zero-test",
-                      detail="no equality test against zero() leads to Err(ZeroDet)")
+        return ctx.ob("C16-a", "a test that sends X == 0 to Err(ZeroDet) exists", False, fn, "no-zero-test",
+                      detail="no comparison of a value with a constant sends the zero case to Err(ZeroDet)")
     for bi, si, s in oks:
         op = s["rv"]["ops"][0]
         droot = v.deep_root({"k": "move", "place": {"l": op["place"]["l"], "p": op["place"]["p"] + [{"k": "field", "name": "determinant"}]}}) \
